@@ -27,7 +27,7 @@ use tokio::io::{AsyncRead, AsyncWrite, ReadBuf};
 use tokio::sync::mpsc;
 use tokio_util::codec::{Decoder, Encoder};
 use uuid::Uuid;
-use vcommon::sched::{explore_until, run_one, ExploreStats, Outcome, Subject, WakeFlag, World};
+use vcommon::sched::{run_one, ExploreStats, Outcome, Subject, WakeFlag, World};
 use vcommon::{Ctx, Leg};
 
 #[derive(Clone, Copy, Debug, PartialEq, Eq, serde::Serialize, serde::Deserialize)]
@@ -1072,12 +1072,10 @@ struct GridResult {
 
 fn run_cfgs(ctx: &Ctx, name: &str, cfgs: Vec<Cfg>, bound: u32, max_exec: u64, wall_cap_s: f64) {
     let t0 = Instant::now();
-    let results: Vec<Option<ExploreStats>> = vcommon::par_map(&cfgs, vcommon::ncpu(), |_, cfg| {
-        if t0.elapsed().as_secs_f64() > wall_cap_s {
-            return None;
-        }
-        Some(explore_until::<DlWorld>(cfg, bound, max_exec, 1, Some(t0 + Duration::from_secs_f64(wall_cap_s))))
-    });
+    let results: Vec<Option<ExploreStats>> = match vcommon::sched::grid_explore::<DlWorld>(name, &cfgs, bound, max_exec, wall_cap_s) {
+        vcommon::sched::GridOutcome::NotMine => return,
+        vcommon::sched::GridOutcome::Done(r) => r,
+    };
     let mut g = GridResult { total: ExploreStats::default(), skipped: 0, n: cfgs.len(), samples: vec![] };
     for (cfg, r) in cfgs.iter().zip(results) {
         match r {
